@@ -78,6 +78,7 @@ type Machine struct {
 	initing bool
 	trail   []trailEntry
 	fnInfo  map[*ssa.Function]*fnInfo
+	noIntr  *ssa.Function // callFnNoIntrinsic: interpret this function's source once
 
 	// per-path state
 	tape       []Decision
